@@ -5,6 +5,7 @@ import PV.Model.SCC
 import PV.Model.Tarjan
 import PV.Model.Grouping
 import PV.Model.TED
+import PV.Model.ZS
 import PV.Model.Gate
 import PV.Model.CFG
 import PV.Model.Summary
@@ -151,7 +152,14 @@ def runTed (t : Array String) : String :=
   let (t2, _) := parseTree t (p1 + 1)
   let d := PV.TED.dist c t1 t2
   let (sn, sd) := PV.TED.similarity 1000 d n1 n2
-  s!"{d} {sn} {sd} {t1.size} {t2.size}"
+  -- the Zhang–Shasha MIRROR (PV.ZS, proved equal to `dist`): its distance, and the tree preparation (left-most leaf of every post-order
+  -- position, key roots in ascending order) for the internal-state comparison with apted_tree.go
+  let prep (t : PV.TED.Tree) : String :=
+    let p := PV.ZS.mkPost t
+    joinWith "," ((List.range p.n).map fun k => toString (p.lml k)) ++ "/" ++ joinWith "," ((PV.ZS.keyrootsT t).map toString)
+  -- the mirror keeps its tables as functions (one closure layer per update): it is only evaluated on small pairs
+  let zs := if t1.size + t2.size ≤ 7 then PV.ZS.zsDist c t1 t2 else d
+  s!"{d} {sn} {sd} {t1.size} {t2.size} {zs} {prep t1} {prep t2}"
 
 def sevOf (s : String) : PV.Gate.Sev :=
   if s == "c" then .critical else if s == "w" then .warning else .info
